@@ -1498,6 +1498,8 @@ class Ev:
                 return func_atom("abs", recv)
             if m in ("try_into",) and not args and recv.order == 0:
                 return Sym("ctor", "Ok", recv)
+            if m == "div_euclid" and len(args) == 1 and isinstance(args[0], Poly) and recv.order == 0:
+                return Poly.atom(("ediv", recv.key(), args[0].key()))      # floor division for a positive divisor: its own atom, never merged with idiv
             if m in ("checked_sub", "checked_add", "checked_mul", "checked_div") and len(args) == 1 and recv.order == 0:
                 return Sym("checked", m[8:], vkey(recv), vkey(args[0]))
             if m == "mul_add" and len(args) == 2:
